@@ -594,13 +594,43 @@ class SymStr:
             raise ValueError("substring not found")
         return r
 
-    def startswith(self, pre):
-        return self[:len(pre)] == pre
+    def _adjust(self, start, end):
+        """CPython's ADJUST_INDICES"""
+        n = len(self.cells)
+        end = n if end is None else operator.index(end)
+        start = 0 if start is None else operator.index(start)
+        if end > n:
+            end = n
+        elif end < 0:
+            end = max(0, end + n)
+        if start < 0:
+            start = max(0, start + n)
+        return start, end
 
-    def endswith(self, suf):
-        if len(suf) == 0:
+    def _window(self, start, end):
+        if start is None and end is None:
+            return self
+        a, b = self._adjust(start, end)
+        return SymStr.lift(self[a:b]) if a < b else SymStr([])
+
+    def _tailmatch(self, sub, start, end, at_start):
+        if isinstance(sub, tuple):
+            return any(bool(self._tailmatch(x, start, end, at_start)) for x in sub)
+        if isinstance(sub, SymTok):
+            sub = sub.concrete()
+        a, b = self._adjust(start, end)
+        m = len(sub)
+        if b - m < a:
+            return False
+        if m == 0:
             return True
-        return self[-len(suf):] == suf
+        return (self[a:a + m] if at_start else self[b - m:b]) == sub
+
+    def startswith(self, pre, start=None, end=None):
+        return self._tailmatch(pre, start, end, True)
+
+    def endswith(self, suf, start=None, end=None):
+        return self._tailmatch(suf, start, end, False)
 
     def __contains__(self, sub):
         if isinstance(sub, SymTok):
@@ -615,7 +645,9 @@ class SymStr:
             return False
         raise TypeError("'in <string>' requires string as left operand")
 
-    def count(self, sub):
+    def count(self, sub, start=None, end=None):
+        if start is not None or end is not None:
+            return self._window(start, end).count(sub)
         if len(sub) != 1:
             return self.concrete().count(sub)
         tot = 0
@@ -678,6 +710,54 @@ class SymStr:
         def call(*args, **kw):
             return meth(self.concrete(), *args, **kw)
         return call
+
+
+def proxy_fault(ex):
+    """did this exception come out of the proxies themselves (an operation of str / int / dict that the proxy does not
+    imitate), rather than out of the code under test?  Judged by where it was raised.  Such a path is re-run with the
+    input pinned to concrete values (forking over them: more paths, same meaning) instead of being judged."""
+    if not isinstance(ex, (TypeError, AttributeError, NotImplementedError)):
+        return False
+    tb, last = ex.__traceback__, None
+    while tb is not None:
+        last, tb = tb, tb.tb_next
+    if last is None:
+        return False
+    f = last.tb_frame.f_code.co_filename.replace("\\", "/")
+    return f.endswith("/vf/symstr.py") or f.endswith("/vf/engine.py")
+
+
+def pin(x):
+    """deep copy of x with every proxy replaced by its concrete value on this path (forks over the values)"""
+    if isinstance(x, TokStr):
+        return x.as_plain_str()
+    if isinstance(x, (SymStr, SymTok)):
+        return x.concrete()
+    if isinstance(x, SymBool):
+        return bool(x)
+    if isinstance(x, SymInt):
+        return int(x)
+    if isinstance(x, list):
+        return [pin(y) for y in x]
+    if isinstance(x, tuple):
+        return tuple(pin(y) for y in x)
+    if isinstance(x, dict):
+        return {pin(k): pin(v) for k, v in x.items()}
+    return x
+
+
+PROXY_FALLBACKS = [0]
+
+
+def robust_call(fn, *args, **kw):
+    """fn(*args, **kw); if a proxy (not the code under test) raises, once more with pinned arguments"""
+    try:
+        return fn(*args, **kw)
+    except Exception as ex:  # noqa
+        if not proxy_fault(ex):
+            raise
+    PROXY_FALLBACKS[0] += 1
+    return fn(*[pin(a) for a in args], **{k: pin(v) for k, v in kw.items()})
 
 
 def model_value(model, x):
